@@ -19,7 +19,8 @@
  * output lines:  lp [s] 0|1 / cvp <verdict> [s] -> [r]|none / sn [s] -> [r]|none /
  *                inc [base] [name] -> [normal] tries [t]... /
  *                call <efun> <who> [a]... / valid_read|valid_write [path] <who> <op> -> 0|1|=[str] (from the master) /
- *                fs <libc function> r|w [path]
+ *                fs <libc function> r|w [path]      (efuns get_dir1 / stat1 = get_dir (a, -1) / stat (a, -1);
+ *                `fs stat-entry` = a stat () made while the directory stream of the efun is open, sorted)
  */
 #include "vh.h"
 #include <dlfcn.h>
@@ -45,10 +46,41 @@ static char fs_rec[MAXREC][1100];
 static int fs_nrec = 0;
 static int fs_recording = 0;	/* collect instead of printing (unit style inc_open) */
 
+/* get_dir (path, -1): the stat () calls issued while the directory stream the efun opened is still open are
+ * per-entry calls in readdir order (the kernel's): they are collected and printed SORTED as `fs stat-entry`
+ * when the stream is closed (or the call ends) */
+static int dir_open = 0;
+static char *ent_rec[1024];
+static int ent_n = 0;
+
+static int ent_cmp (const void *a, const void *b)
+{
+  return strcmp (*(char *const *) a, *(char *const *) b);
+}
+
+static void fs_log (const char *fn, int w, const char *path);
+static void ent_flush (void)
+{
+  int n = ent_n;
+  dir_open = 0;
+  ent_n = 0;
+  qsort (ent_rec, n, sizeof ent_rec[0], ent_cmp);
+  for (int i = 0; i < n; i++)
+    {
+      fs_log ("stat-entry", 0, ent_rec[i]);
+      free (ent_rec[i]);
+    }
+}
+
 static void fs_log (const char *fn, int w, const char *path)
 {
   if (!fs_armed)
     return;
+  if (dir_open > 0 && !fs_recording && !strcmp (fn, "stat") && ent_n < 1024)
+    {
+      ent_rec[ent_n++] = strdup (path ? path : "(null)");
+      return;
+    }
   if (fs_recording)
     {
       if (fs_nrec < MAXREC)
@@ -84,6 +116,7 @@ REAL (int, rename, (const char *, const char *))
 REAL (int, mkdir, (const char *, mode_t))
 REAL (int, rmdir, (const char *))
 REAL (DIR *, opendir, (const char *))
+REAL (int, closedir, (DIR *))
 REAL (int, link, (const char *, const char *))
 REAL (int, symlink, (const char *, const char *))
 REAL (int, access, (const char *, int))
@@ -315,7 +348,18 @@ DIR *opendir (const char *path)
   fs_log ("opendir", 0, path);
   if (FAILMODE)
     ENOENT_RET (0);
-  return real_opendir (path);
+  DIR *d = real_opendir (path);
+  if (d && fs_armed && !fs_recording)
+    dir_open++;
+  return d;
+}
+
+int closedir (DIR * d)
+{
+  init_closedir ();
+  if (fs_armed && dir_open > 0 && --dir_open == 0)
+    ent_flush ();
+  return real_closedir (d);
 }
 
 int link (const char *from, const char *to)
@@ -907,6 +951,8 @@ static int c15_cmd (char *line)
 	}
       fs_armed = 1;
       vh_apply_str (ob, "do_efun", 3, a, 0, 0);
+      if (ent_n || dir_open)
+	ent_flush ();
       fs_armed = 0;
       return 1;
     }
